@@ -49,6 +49,9 @@ let handle = function
       (match c04_parsed_suffix (b m) (nn p) (nat_of_int (int_of_string k)) (b y) with
        | Ok ((((e, c), cc), lc), h) -> "Ok " ^ sb e ^ " " ^ str_cmp c ^ " " ^ str_cmp cc ^ " " ^ str_cmp lc ^ " " ^ hex_of_bytes h
        | _ -> "Panic")
+  | ["pzone"; x; y] -> str_ocmp (c04_zonemd_partial (nn x) (nn y))
+  | ["prrsig"; x; y] -> str_ocmp (c04_rrsig_partial (nn x) (nn y))
+  | ["pnsec3"; x; y] -> str_ocmp (c04_nsec3_partial (b x) (b y))
   | ["hdr"; o1; t1; c1; l1; r1; o2; t2; c2; l2; r2] ->
       let (x, y) = (mkh o1 t1 c1 l1 r1, mkh o2 t2 c2 l2 r2) in
       sb (c04_header_eq x y) ^ " " ^ str_cmp (c04_header_cmp x y)
